@@ -59,6 +59,8 @@ class Rule:
     def floor(self, minimum: int, what: str, got: Optional[int] = None) -> None:
         """Fail (exit 2) if fewer instances than confirmed by hand were seen."""
         n = self.instances if got is None else got
+        if self.violations:
+            return  # a recorded violation is the more specific answer
         if n < minimum:
             raise AnalysisError(
                 f"{self.check.pid}-{self.rid}: instance floor not reached for {what}:"
